@@ -12,6 +12,28 @@ const maxInlineDepth = 4
 const maxInlineInstrs = 60
 
 func (v *FnVC) call(fr *frame, st *State, x ssa.CallInstruction) Val {
+	res := v.call1(fr, st, x)
+	// ghost observers of direct calls made by the function under verification
+	if fr.top {
+		if cal := x.Common().StaticCallee(); cal != nil {
+			k := FuncKey(cal)
+			st.ghost["called#"+k] = tTrue
+			sig := cal.Signature.Results()
+			if n := sig.Len(); n > 0 && isErrorType(sig.At(n-1).Type()) {
+				var ev Val = res
+				if n > 1 {
+					ev = res.(TupleV).E[n-1]
+				}
+				if iv, ok := ev.(IfaceV); ok {
+					st.ghost["errSeen#"+k] = v.sc.Define("ghost", Or(st.ghostGet("errSeen#"+k), Not(Eq(iv.Tag, tZero))))
+				}
+			}
+		}
+	}
+	return res
+}
+
+func (v *FnVC) call1(fr *frame, st *State, x ssa.CallInstruction) Val {
 	c := x.Common()
 	reach := fr.reach[fr.curBlock.Index]
 	resT := c.Signature().Results()
@@ -79,11 +101,13 @@ func (v *FnVC) call(fr *frame, st *State, x ssa.CallInstruction) Val {
 		}
 	}
 	// unknown effect
-	for _, a := range args {
-		v.escapeArg(st, a, x)
-	}
-	ms := v.callMods(x)
-	v.applyMods(st, ms)
+	v.withLocalFrame(fr, st, func() {
+		for _, a := range args {
+			v.escapeArg(st, a, x)
+		}
+		ms := v.callMods(x)
+		v.applyMods(st, ms)
+	})
 	v.bumpAlloc(st, reach)
 	return v.freshTyped("ret."+calleeName(c), rt, st, reach)
 }
@@ -232,11 +256,13 @@ func (v *FnVC) applyContract(fr *frame, st *State, con *Contract, callee *ssa.Fu
 	if con.Pure {
 		res = v.pureApp(callee, args, st, rt, reach)
 	} else {
-		for _, a := range args {
-			v.escapeArg(st, a, x)
-		}
-		ms := v.callMods(x)
-		v.applyMods(st, ms)
+		v.withLocalFrame(fr, st, func() {
+			for _, a := range args {
+				v.escapeArg(st, a, x)
+			}
+			ms := v.callMods(x)
+			v.applyMods(st, ms)
+		})
 		v.bumpAlloc(st, reach)
 		res = v.freshTyped("ret."+callee.Name(), rt, st, reach)
 	}
